@@ -61,9 +61,69 @@ def run(chk):
             ia, ib, ic = cs.p3(a, pos, d, ps), cs.p3(b, pos, d, ps), cs.p3(c, pos, d, ps)
             qs.append((ia, ib, ic, ps))
         plan.append((wj, qs))
+    # slabs and faults with a random grains model (not modelled in Gallina: oracle only): compositions listed in any order,
+    # fixed and random sizes, normalisation flags per composition
+    from worlds import line_world
+    from qgen import line_query
+    line_plan = []
+    for wi in range(10 if quick else 120):
+        wj, sph, lf = line_world(rng, spherical=False, straight=rng.random() < 0.5, uniform_sections=True, allow_mass_conserving=False, extra_area=0.0)
+        for k in ("temperature models", "composition models", "grains models", "velocity models", "sections"):
+            lf.pop(k, None)
+        for sg in lf["segments"]:
+            for k in ("temperature models", "composition models", "grains models", "velocity models"):
+                sg.pop(k, None)
+        comps = rng.sample(range(4), rng.randint(2, 3))
+        if sorted(comps) == comps:
+            comps = comps[::-1]
+        gm = {"model": "random uniform distribution", "compositions": comps,
+              "grain sizes": [rng.choice([-1, round(rng.uniform(0.05, 1.5), 3)]) for _ in comps],
+              "normalize grain sizes": [rng.random() < 0.5 for _ in comps]}
+        gm["grain sizes"][0], gm["normalize grain sizes"][0] = -1, True
+        gm["grain sizes"][1], gm["normalize grain sizes"][1] = round(rng.uniform(0.05, 1.5), 3), False
+        lf["grains models"] = [gm]
+        lf["composition models"] = [{"model": "uniform", "compositions": [0]}]
+        seed = rng.randrange(1, 1 << 30)
+        a = cs.add_world(wj, seed=seed, model=False)
+        b = cs.add_world(wj, seed=seed, model=False)
+        for qi in range(20):
+            q, d = line_query(rng, wj, False, lf, spread=rng.choice([0.15, 0.3]))
+            if d < 0:
+                continue
+            ci = rng.randrange(len(comps))
+            k = rng.choice([2, 3, 4])
+            ps = [[3, comps[ci], k], [4, 0, 0]]
+            line_plan.append((cs.p3(a, q, d, ps), cs.p3(b, q, d, ps), gm, ci, k))
     impl, model = cs.run()
     chk.evaluations = len(impl)
     bad = chk.correspond(impl, model, cs, max_ulp=0)
+    for ia, ib, gm, ci, k in line_plan:
+        v = common.parse_vec(impl[ia])
+        if impl[ia] != impl[ib]:
+            viol.append(("two worlds built alike (same file, same seed) and queried alike disagree (slab/fault random grains)", cs.describe(ib)))
+            continue
+        if v is None or v[-1] < 0:
+            continue
+        sizes = v[:k]
+        mats = [v[k + 9 * gi:k + 9 * gi + 9] for gi in range(k)]
+        if not any(abs(x) > 0 for m in mats for x in m) or not any(abs(x) > 0 for x in sizes):
+            # the grains model did not apply here (outside its distance range: sizes stay 0; the identity matrices are D4)
+            continue
+        chk.nontriv(cs.probe[ia])
+        fixed, norm = gm["grain sizes"][ci], gm["normalize grain sizes"][ci]
+        if fixed < 0 and norm and abs(sum(sizes) - 1.0) > 1e-9:
+            dsc = cs.describe(ia)
+            dsc["sizes"] = sizes
+            viol.append(("slab/fault random grains: sizes requested as normalised sum to %.12g" % sum(sizes), dsc))
+        if fixed >= 0 and not norm and any(abs(x - fixed) > 1e-12 for x in sizes):
+            dsc = cs.describe(ia)
+            dsc["sizes"] = sizes
+            viol.append(("slab/fault random grains: fixed grain size %g is returned as %s" % (fixed, sizes), dsc))
+        for m in mats:
+            ok, why = proper_rotation(m)
+            if not ok:
+                viol.append(("slab/fault random grain orientation is not a proper rotation matrix (%s)" % why, cs.describe(ia)))
+                break
     for wj, qs in plan:
         differs = False
         drew = False
